@@ -150,6 +150,20 @@ def gen_links(tier, seed, rels):
                 else:
                     sh = rng.choice([-37, 250])
                     links.append({"rel": rel, "shift": sh, "base": base, "other": with_y(c, encode([v + sh for v in vals], miss, ndA + sh), ndA + sh)})
+    if "shift" in rels:
+        # envelope-sensitive inputs for the asymmetric fixed-lambda smoother: short noisy series around zero (the iteration
+        # starts from the zero curve, so the sign of the data decides the first envelope), small lambda, p near 0 / 1, and
+        # offsets that carry the series across zero. Equal outputs are accepted without any exact solve: these are cheap.
+        for i in range(250 if quick else 2500):
+            n = rng.choice([5, 6, 6, 7, 8, 10])
+            vals = [rng.randint(0, 200) for _ in range(n)]
+            miss = {j for j in range(n) if rng.random() < 0.1} if i % 3 == 0 else set()
+            if n - len(miss) < 3:
+                miss = set()
+            c = {"variant": "pgu", "op": OP["pgu"], "api": "kernel", "lam": sc.fl(rng.choice([0.01, 0.1, 0.1, 1.0, 10.0])), "p": sc.fl(rng.choice([0.05, 0.9, 0.95, 0.95, 0.1]))}
+            sh = rng.choice([-60, -100, -150, -30, 75])
+            ndA = -3000
+            links.append({"rel": "shift", "shift": sh, "base": with_y(c, encode(vals, miss, ndA), ndA), "other": with_y(c, encode([v + sh for v in vals], miss, ndA + sh), ndA + sh)})
     if "reverse" in rels:
         # selection-sensitive inputs: fine grid, short series, near-tie V-curves; equal outputs are accepted
         # without any exact solve, so many of these are cheap
